@@ -24,7 +24,7 @@ from .common import (Sim, SimStore, run_once, violation, finish, shape_stats, se
 ID = "C16"
 LEVEL = "exploration"
 HAS_CLOCK = False
-COUNTS = {"quick": 4000, "thorough": 600000}
+COUNTS = {"quick": 8000, "thorough": 600000}
 WALL = {"quick": 600, "thorough": 6 * 3600}
 SHRINK_WALL = {"quick": 120, "thorough": 900}
 SELFTEST_N = {"quick": 32, "thorough": 256}
